@@ -1,7 +1,7 @@
 import MaltModel.Cfg.AstToCfg
 import MaltModel.Cfg.Check
 import MaltModel.Proofs.C05Check
-import MaltModel.Proofs.C05Paths
+import MaltModel.Proofs.C05Paths2
 import MaltModel.Proofs.C05Wf
 /-!
 # C05 — the control-flow graph contains every control path that can execute
@@ -94,22 +94,27 @@ Full statement (kept as the goal; FALSE of the pinned code without the last hypo
   theorem C05_paths (fn g) : fnSupported fn → fnDistinctKeys fn → fnNoJumpInHandlerOfTryWithFinally fn →
       rootGraph fn = some g → ∀ fuel ω, IsPath g (walkFn fuel fn ω)
 
-Proved so far by structural induction over statements (`Proofs/C05Paths.lean`: Lemma A = frame conditions of the builder
-for ALL statements including try/except/finally; Lemma B = "every required pair of the flow summary is an edge, every
-node control can be at is a leaf, every pending jump is registered in its target section" for the fragment below;
-Lemma C = the finished root graph passes `pathCheck`), composed with `walk_sound` (all fuels, all oracles):
+Proved so far by structural induction over statements (`Proofs/C05Frame.lean`: Lemma A = frame conditions of the builder
+for ALL statements including try/except/finally; `Proofs/C05Paths2.lean`: Lemma B = "every required pair of the flow
+summary is an edge, every node control can be at is a leaf, every pending jump is registered in the section it targets,
+every pending raise is registered with every enclosing handler" for the fragment below; Lemma C = the finished root
+graph passes `pathCheck`), composed with `walk_sound` (all fuels, all oracles):
 
-* step 1 (this theorem): functions without `try` — if/while/for (+else)/with/break/continue/return/uncaught raise/
+* steps 1 and 2 (this theorem): every function without a `finally` block — if/while/for (+else)/with/break/continue/
+  return/raise/try-except-else (handlers entered from the raise nodes of the body, handler fall-through, else blocks)/
   nested def/class/lambda-bearing statements, arbitrarily nested, dead code included;
-* step 2 (handlers) and step 3 (`finally`: pending jumps threaded through guard sub-graphs) are NOT yet proved for the
+* step 3 (`finally`: pending jumps threaded through guard sub-graphs, and the known violation above) is NOT proved for the
   model by induction; for those programs the same conclusion is established per graph by the verified checker
-  `C05_paths_checker` run on the implementation's real graph (and on the model's) on every run.
+  `C05_paths_checker` run on the implementation's real graph (equal to the model's) on every run.
 
 `fnDistinctKeys`: the dictionaries of `GraphBuilder` are keyed by AST node objects; in the model the keys are the
-serialiser's preorder ids, which are pairwise distinct by construction (the driver re-checks it for every program). -/
+serialiser's preorder ids.  Keys of one dictionary family must be pairwise distinct; they are for every serialised
+program except those on which the real builder itself fails an `assert` (a try-else block that starts with an `if`:
+the try keys the else block by its first statement, the `if` keys its own section by the same node).  The driver
+evaluates the predicate for every program. -/
 
 theorem C05_paths_partial (i : Nat) (name : String) (args : Expr) (body : List Stmt) (decs rets : List Expr) (g : Graph)
-    (hfrag : fnFrag1 (.functionDef i name args body decs rets false) = true)
+    (hfrag : fnFrag2 (.functionDef i name args body decs rets false) = true)
     (hkeys : fnDistinctKeys (.functionDef i name args body decs rets false) = true)
     (hg : rootGraph (.functionDef i name args body decs rets false) = some g) (fuel : Nat) (ω : Oracle) :
     IsPath g (walkFn fuel (.functionDef i name args body decs rets false) ω) := by
@@ -121,8 +126,8 @@ theorem C05_paths_partial (i : Nat) (name : String) (args : Expr) (body : List S
   subst hgb
   exact pathCheck_sound i name args body decs rets false _ (pathCheck_build i name args body decs rets hfrag hkeys) fuel ω
 
-/-- `def f(a): while a: (if a: break; else: continue); x = a   else: return a` then `y = a` — nested jumps, loop-else,
-dead code: the hypotheses of `C05_paths_partial` hold and the graph exists. -/
+/-- `def f(a): while a: (if a: break; else: continue); x = a   else: return a` then `y = lambda: a` — nested jumps,
+loop-else, dead code, a lambda: the hypotheses of `C05_paths_partial` hold and the graph exists. -/
 def exFn : Stmt :=
   .functionDef 1 "f" (.arguments 2 [] [.arg 3 "a" []] [] [] [] [] [])
     [.while_ 4 (.name 5 "a" .load)
@@ -132,10 +137,27 @@ def exFn : Stmt :=
      .assign 15 [.name 16 "y" .store] (.lambda 17 (.arguments 18 [] [] [] [] [] [] []) (.name 19 "a" .load))]
     [] [] false
 
-example : fnFrag1 exFn = true ∧ fnDistinctKeys exFn = true ∧ (rootGraph exFn).isSome = true := by decide
+example : fnFrag2 exFn = true ∧ fnDistinctKeys exFn = true ∧ (rootGraph exFn).isSome = true := by decide
 /-- … and `C05_wellformed` applies to both of its graphs (the function's and the lambda's). -/
 example : (build exFn).err = none ∧ (build exFn).cfgs.length = 2 := by decide
 example : walkFn 20 exFn [1, 0, 1, 1] = ([2, 5, 7, 9, 5, 7, 8, 17, 15], .normal, []) := by decide
+
+/-- `def f(a): for x in a: try: (if a: raise E); continue  except E0: break  except E1: y = a  else: return a` -/
+def exFn2 : Stmt :=
+  .functionDef 1 "f" (.arguments 2 [] [.arg 3 "a" []] [] [] [] [] [])
+    [.for_ 4 (.name 5 "x" .store) (.name 6 "a" .load)
+      [.try_ 7
+        [.if_ 8 (.name 9 "a" .load) [.raise 10 [.name 11 "E" .load] []] [], .continue_ 12]
+        [.handler 13 [.name 14 "E0" .load] [] [.break_ 15],
+         .handler 16 [.name 17 "E1" .load] [] [.assign 18 [.name 19 "y" .store] (.name 20 "a" .load)]]
+        [.ret 21 [.name 22 "a" .load]]
+        []]
+      [] [] false]
+    [] [] false
+
+example : fnFrag2 exFn2 = true ∧ fnDistinctKeys exFn2 = true ∧ (rootGraph exFn2).isSome = true := by decide
+/-- first iteration: the raise is caught by the second handler, falls through; second iteration: caught by the first, `break` -/
+example : walkFn 30 exFn2 [1, 1, 1, 1, 1, 0] = ([2, 6, 9, 10, 18, 6, 9, 10, 15], .normal, []) := by decide
 
 /-! ## The known violation of the full statement on the pinned code
 
